@@ -35,6 +35,13 @@ fn parse_length(i: &[u8]) -> nom::IResult<&[u8], usize> {
         Ok((i, len as usize))
     } else {
         let len = len - 128;
+        // 0x80 announces the indefinite form; it's not a long form without length octets.
+        if len == 0 {
+            return Err(nom::Err::Failure(Error::from_error_kind(
+                i,
+                ErrorKind::LengthValue,
+            )));
+        }
         let (i, b) = take(len)(i)?;
         // A length which doesn't fit into 64 bits mustn't be folded into that range.
         if b.len() > 8 && b[..b.len() - 8].iter().any(|&o| o != 0) {
